@@ -109,6 +109,10 @@ fn run_crash(scn: &Scenario, prop: &str, explore: bool) -> RunResult {
                 let cp = CrashPoint { seg: si, spec, nested: vec![] };
                 let ne = if nested { Some((&mut r, 3usize)) } else { None };
                 let ctx = crash::phase(&seg.log, cut, &scn.ops);
+                if ctx.starts_with("doctor:") || ctx.starts_with("verify:") {
+                    // a crash inside doctor is not among the calls the crash properties list
+                    continue;
+                }
                 let vs = ev.eval(seg, &cp, &cands, may_fail, &props, &ctx, ne);
                 for (v, c) in vs {
                     if !v.props.iter().any(|p| p == prop) {
@@ -228,6 +232,37 @@ fn gen_corpus_img(seed: u64, tier: Tier) -> Scenario {
     gen::gen_corpus(seed, &gen::CorpusCfg { max_docs: docs(tier) / 2, with_vec: false, with_images: true, mutate: true })
 }
 
+fn gen_vacuum(seed: u64, tier: Tier) -> Scenario {
+    // histories that always contain deletes/updates and at least one vacuum (direct or via doctor)
+    let mut s = gen::gen_history(seed, if tier == Tier::Quick { 20 } else { 36 }, false, true);
+    let mut r = Rng::new(seed, "vacuum-tail");
+    let tail = s.ops.len().saturating_sub(6);
+    let mut ins: Vec<Op> = vec![Op::Commit];
+    if r.chance(1, 2) {
+        ins.push(Op::Vacuum);
+        ins.push(Op::Check);
+        ins.push(Op::Close);
+        ins.push(Op::Verify { deep: r.chance(1, 2) });
+        ins.push(Op::Open);
+        ins.push(Op::Check);
+    } else {
+        ins.push(Op::Close);
+        ins.push(Op::Doctor(DoctorSpec { time: r.chance(1, 2), lex: r.chance(1, 2), vec: false, vacuum: true, dry_run: false }));
+        ins.push(Op::Verify { deep: true });
+        ins.push(Op::Open);
+        ins.push(Op::Check);
+    }
+    for (k, o) in ins.into_iter().enumerate() {
+        s.ops.insert(tail + k, o);
+    }
+    s.ops.push(Op::Verify { deep: true });
+    s
+}
+
+pub const RULE_RO: &str = "seeded corpora with committed and still-pending (process death) records, followed by one or more read-only sessions (open_read_only, model comparison against the last committed state, searches, timelines, vector queries, verify) under the syscall monitor; the file is hashed when the read-only handle opens and when it is dropped; a run is non-trivial iff >=1 mutation was acknowledged and >=1 comparison ran on a reopened handle; distinct = (op-kind buckets, probes) classes";
+pub const RULE_SF: &str = "C01-style histories with vacuum and doctor, one third fault-free and two thirds with injected ENOSPC/EIO/EMFILE/short writes/EINTR (at most 1-3 error-class faults per run), a directory listing after every API return, and a planted forbidden sidecar before an open; a run is non-trivial iff >=1 mutation was acknowledged and >=1 comparison ran on a reopened handle; distinct = (op-kind buckets, fault kinds fired, probes) classes";
+pub const RULE_TK: &str = "seeded histories of puts (whole and chunked), tickets (fresh, stale, equal, negative sequence numbers; capacities a few bytes to kilobytes above the current payload end), forged signed tickets on bound and unbound memories, commits, clean and dirty restarts; after every call the payload ends are compared with the granted capacity and rejected calls are monitored for write-class syscalls; non-trivial and distinct as for histories";
+
 pub const RULE_CORPUS: &str = "seeded corpora (1..40 documents in quick, ..200 in thorough: short and chunked texts over a fixed pseudo-word vocabulary with planted query words, random uris/tags/tracks/timestamps/embeddings, instant indexing on or off, commits every n documents, updates and deletes addressed by uri) followed by a query battery (single words, AND/OR/NOT, phrases, field terms, uri/scope, as_of filters, sketch on/off, top_k 1..50, timelines, vector queries) issued while records are pending, after commit, after reopen, on a read-only handle and after a doctor rebuild; a run is non-trivial iff >=1 mutation was acknowledged and >=1 full model comparison ran on a reopened handle; distinct = distinct (op-kind count buckets, probes hit) classes among non-trivial runs";
 
 fn hist(id: &'static str, gen: fn(u64, Tier) -> Scenario, probes: &'static [&'static str]) -> CheckDef {
@@ -307,6 +342,11 @@ pub fn all() -> Vec<CheckDef> {
         corpus("C15", gen_corpus_img, &["timelines"]),
         corpus("C16", gen_corpus_plain, &["pagination_multi_page"]),
         corpus("C28", gen_corpus_mut, &["differential_compares"]),
+        CheckDef { id: "C18", level: "exploration", quick_s: 40, thorough_s: 600, gen: |s, _t| gen::gen_readonly(s), run: run_history, rule: RULE_RO, assumptions: &["write-class syscalls are observed at the process's libc boundary (write/pwrite/ftruncate/rename/unlink/copy_file_range on the memory's directory); mmap is read-only in this code base"], want_probes: &["ro_opens", "ro_byte_snapshots", "abandon", "searches"] },
+        CheckDef { id: "C19", level: "exploration", quick_s: 40, thorough_s: 600, gen: |s, t| gen::gen_single_file(s, if t == Tier::Quick { 20 } else { 40 }), run: run_history, rule: RULE_SF, assumptions: &["injected errors are returned at the libc boundary for calls on the memory's directory only", "reads through mmap cannot be faulted"], want_probes: &["dir_listings", "sidecar_refusals", "op_errors"] },
+        CheckDef { id: "C24", level: "exploration", quick_s: 40, thorough_s: 600, gen: |s, _t| gen::gen_tickets(s, true), run: run_history, rule: RULE_TK, assumptions: &["capacity is compared with the end offset of frame payloads as reported by the public Frame fields"], want_probes: &["capacity_checks", "tickets_accepted", "rejected_calls_monitored"] },
+        CheckDef { id: "C25", level: "exploration", quick_s: 40, thorough_s: 600, gen: |s, _t| gen::gen_tickets(s, false), run: run_history, rule: RULE_TK, assumptions: &["acceptance of an authentic signed ticket cannot be exercised (no private key); forged signatures, wrong memory ids and unbound memories are"], want_probes: &["tickets_accepted", "stale_tickets_rejected", "forged_tickets_rejected", "rejected_calls_monitored"] },
+        hist("C42", gen_vacuum, &["vacuum", "deletes", "updates"]),
         CheckDef {
             id: "C05",
             level: "exploration",
